@@ -107,6 +107,9 @@ func vNameStartByte(c byte) bool {
 //@   requires tk != nil && tk.pos < len(tk.src)
 //@   modifies tk.pos
 //@   ensures old(tk.pos) < tk.pos
+//@   ensures[bad-string-at-newline] result2 == errBadString ==> tk.pos < len(tk.src) && tk.src[tk.pos] == '\n'
+//@   ensures[eof] result2 == errEofInString ==> tk.pos == len(tk.src)
+//@   ensures[errors] result2 == 0 || result2 == errBadString || result2 == errEofInString
 //@   loop 1 invariant old(tk.pos) < startPos && startPos <= tk.pos && tk.pos <= L && L == len(tk.src)
 //@   loop 1 decreases L - tk.pos
 
@@ -122,13 +125,15 @@ func vNameStartByte(c byte) bool {
 //@   modifies tk.pos
 //@   ensures old(tk.pos) <= tk.pos
 //@   ensures result0 != nil || result1 != nil
+//@   ensures[bad-url-ends-at-unescaped-paren] result0 == nil ==> tk.pos == len(tk.src) || (tk.pos >= 2 && tk.src[tk.pos-1] == ')' && tk.src[tk.pos-2] != '\\')
 //@   loop 1 invariant old(tk.pos) <= tk.pos && tk.pos <= L && L == len(tk.src)
 //@   loop 1 decreases L - tk.pos
 //@   loop 2 invariant old(tk.pos) <= startPos && startPos <= tk.pos && tk.pos <= L && L == len(tk.src)
 //@   loop 2 decreases L - tk.pos
-//@   loop 3 invariant old(tk.pos) <= tk.pos && tk.pos <= L && L == len(tk.src)
+//@   loop 3 invariant old(tk.pos) <= tk.pos && tk.pos <= L && L == len(tk.src) && tk.pos >= 1
 //@   loop 3 decreases L - tk.pos
 //@   loop 4 invariant old(tk.pos) <= tk.pos && tk.pos <= L && L == len(tk.src)
+//@   loop 4 invariant[no-pending-backslash] tk.pos >= 1 && (tk.src[tk.pos-1] == '\\' ==> tk.pos < L ==> tk.src[tk.pos] != ')')
 //@   loop 4 decreases L - tk.pos
 
 //@ func (*tokenizer).tryConsumeUnicodeRune
